@@ -1470,14 +1470,21 @@ def compile_template(
 
 def format_template(source: str, template_match: NamedTuple, **callables) -> str:
     template_match_asdict = template_match._asdict() if hasattr(template_match, "_asdict") else {}
-    for name, value in template_match_asdict.items():
-        source = source.replace("{{" + name + "}}", unparse(value))
 
     # It's ok that some of the template_match isn't used, just like str.format()
     # may not use all of the arguments.
 
-    if unfilled_wildcards := re.findall(r"\{\{\w+\}\}", source):
+    if unfilled_wildcards := [
+        wildcard
+        for wildcard in re.findall(r"\{\{\w+\}\}", source)
+        if wildcard.strip("{}") not in template_match_asdict
+    ]:
         raise ValueError(f"Unfilled wildcards found in source: {unfilled_wildcards}")
+
+    # All at once: code that is filled in may contain {{braces}} of its own, a set of a set
+    source = re.sub(
+        r"\{\{(\w+)\}\}", lambda match: unparse(template_match_asdict[match.group(1)]), source
+    )
 
     for callable_slot in re.finditer(r"\{\{\w+\((\w+,?)+\)\}\}", source):
         callable_slot_text = callable_slot.group()
